@@ -75,9 +75,29 @@ def sig(v):
 def _exec_entry(packed):
     check, trace = packed
     t0 = time.perf_counter()
-    res = check.execute(trace)
+    funcs = None
+    if os.environ.get('VERIF_FUNCCOV'):
+        # reach measure (off by default): which functions of the pyrates package this run entered (history process only;
+        # pristine observers / references are separate processes)
+        import sys as _sys
+        funcs = set()
+
+        def prof(frame, event, arg):
+            if event == 'call':
+                fn = frame.f_code.co_filename
+                i = fn.find('/pyrates/')
+                if i >= 0:
+                    funcs.add(f'{fn[i + 9:]}:{frame.f_code.co_name}:{frame.f_code.co_firstlineno}')
+        _sys.setprofile(prof)
+    try:
+        res = check.execute(trace)
+    finally:
+        if funcs is not None:
+            _sys.setprofile(None)
     res.setdefault('violations', [])
     res['wall'] = time.perf_counter() - t0
+    if funcs is not None:
+        res['funcs'] = sorted(funcs)
     return res
 
 
@@ -389,6 +409,7 @@ class Aggregate:
         self.wall = 0.0
         self.seed_lo = None
         self.seed_hi = None
+        self.funcs = set()
 
     def add(self, trace, res):
         self.n += 1
@@ -416,6 +437,7 @@ class Aggregate:
             self.bigrams.add(tuple(b))
         for k, v in (res.get('maxima') or {}).items():
             self.maxima[k] = max(self.maxima.get(k, float('-inf')), v)
+        self.funcs.update(res.get('funcs') or [])
         self.sim_time += float(res.get('sim_time') or 0.0)
         self.child_wall += float(res.get('wall') or 0.0)
         if len(self.samples) < 3 and not res.get('discard'):
@@ -472,6 +494,10 @@ class Aggregate:
             'wall_s': round(self.wall, 3),
             'violations': violations,
         }
+        if self.funcs:
+            ev['coverage']['pyrates_functions_entered'] = len(self.funcs)
+            with open(os.path.join(EVIDENCE_DIR, f'funccov-{c.pid}.json'), 'w') as f:
+                json.dump(sorted(self.funcs), f, indent=0)
         with open(os.path.join(EVIDENCE_DIR, f'{c.pid}.json'), 'w') as f:
             json.dump(ev, f, indent=1, default=str)
 
